@@ -233,6 +233,37 @@ func (r QRec) line(seq uint32) (auparse.AuditMessageType, string) {
 	return auparse.AuditMessageType(typ), fmt.Sprintf("audit(1490137971.%03d:%d): %s", int(r.Var)%1000, seq, body)
 }
 
+// GenQPlanFirst draws the plan for the first run of a worker process: two or
+// three tasks that all begin by coalescing their own groups (SYSCALL, AVC and
+// user-space records), so that the library's first-use paths run concurrently.
+func GenQPlanFirst(r *core.Rng) *QPlan {
+	p := GenQPlan(r)
+	nt := r.Range(2, 3)
+	p.Groups = nil
+	for g := 0; g < 2*nt; g++ {
+		var recs []QRec
+		switch r.Intn(3) {
+		case 0:
+			recs = []QRec{{Tmpl: 0, Var: r.U32()}, {Tmpl: 2, Var: r.U32()}, {Tmpl: 5, Var: r.U32()}}
+		case 1:
+			recs = []QRec{{Tmpl: 6, Var: r.U32()}, {Tmpl: 0, Var: r.U32()}}
+		default:
+			recs = []QRec{{Tmpl: core.Pick(r, 7, 8, 11, 13), Var: r.U32()}}
+		}
+		p.Groups = append(p.Groups, recs)
+	}
+	p.Tasks = nil
+	for t := 0; t < nt; t++ {
+		ops := []QOp{{K: qCoalesce, G: 0}, {K: qCoalesce, G: 1}}
+		if r.Chance(1, 2) {
+			ops = append(ops, QOp{K: qResolveGlobal, G: 0})
+		}
+		p.Tasks = append(p.Tasks, ops)
+	}
+	p.Inner = r.Chance(1, 2)
+	return p
+}
+
 // GenQPlan draws a pool of message groups and per-task programs over them.
 func GenQPlan(r *core.Rng) *QPlan {
 	p := &QPlan{Seq: core.Pick(r, uint32(1), 0, 1<<32-1, r.U32())}
@@ -350,11 +381,12 @@ const (
 	qpSyscallNormAppend
 	qpGarbage
 	qpLockBlocked
+	qpLazyFirstRun
 	nQProbes
 )
 
 var qProbeNames = []string{"same_messages_coalesced_again", "resolution_after_clock_advance", "coalesce_returned_error", "event_with_warnings",
-	"execve_args_extracted", "event_with_paths", "first_Data_call_inside_coalesce", "ids_resolved_to_names", "two_or_more_tasks", "ecs_category_merged_from_syscall_norm", "garbage_group", "task_blocked_on_cache_lock"}
+	"execve_args_extracted", "event_with_paths", "first_Data_call_inside_coalesce", "ids_resolved_to_names", "two_or_more_tasks", "ecs_category_merged_from_syscall_norm", "garbage_group", "task_blocked_on_cache_lock", "first_run_of_process_without_warm_up"}
 
 var qFaultNames = []string{"cache_expiry_clock_jump", "repeated_call_on_same_input", "concurrent_tasks", "malformed_records"}
 
@@ -494,9 +526,13 @@ type qEvent struct {
 const (
 	evQViol = iota + 1
 	evQOp
+	evQGot // lazy mode: a result to be judged after the run (A group, B op, C 0 coalesce / 1 resolve, S canonical form)
 )
 
 var qHist = core.NewHist(4096)
+
+// qFirstRun is true until the first plan of this process has been executed.
+var qFirstRun = true
 
 func parseGroup(recs []QRec, seq uint32) []*auparse.AuditMessage {
 	var out []*auparse.AuditMessage
@@ -530,16 +566,23 @@ func ExecQPlan(p *QPlan, trace bool) *core.Result {
 	// ---- setup, in the driver goroutine, before any task exists ----
 	resetCoalesceGlobals()
 	initNameRefs()
+	// In the first run of a process nothing of the library's parsing and
+	// coalescing code is executed before the tasks exist, so that whatever the
+	// library initialises on first use is initialised by concurrent tasks;
+	// the reference answers are then computed after the run.
+	lazy := qFirstRun
+	qFirstRun = false
 	groups := make([]*qGroup, len(p.Groups))
-	for gi, recs := range p.Groups {
-		g := &qGroup{msgs: parseGroup(recs, p.Seq+uint32(gi))}
+	computeRefs := func(gi int) bool {
+		recs := p.Groups[gi]
+		g := groups[gi]
 		for _, tm := range parseGroup(recs, p.Seq+uint32(gi)) {
 			g.twin = append(g.twin, canonMsg(tm))
 		}
 		ev, err, pan := safeCoalesce(parseGroup(recs, p.Seq+uint32(gi)))
 		if pan != "" {
 			res.Add("C15", "panic", "CoalesceMessages", "CoalesceMessages panicked on group "+strconv.Itoa(gi)+": "+pan)
-			return res
+			return false
 		}
 		g.refEv = canonEvent(ev, err)
 		if ev != nil {
@@ -577,7 +620,15 @@ func ExecQPlan(p *QPlan, trace bool) *core.Result {
 				break
 			}
 		}
-		groups[gi] = g
+		return true
+	}
+	for gi, recs := range p.Groups {
+		groups[gi] = &qGroup{msgs: parseGroup(recs, p.Seq+uint32(gi))}
+		if !lazy {
+			if !computeRefs(gi) {
+				return res
+			}
+		}
 	}
 	if len(res.Violations) > 0 {
 		return res
@@ -607,6 +658,16 @@ func ExecQPlan(p *QPlan, trace bool) *core.Result {
 			advanced := false
 			viol := func(kind, class, detail string) { h.Rec(evQViol, 0, 0, 0, 0, kind+"\x00"+class+"\x00"+detail) }
 			checkAll := func(opi int) {
+				if lazy {
+					// earlier events against their snapshots only; the messages are compared with their twins after the run
+					for ei, e := range events {
+						if got := canonEvent(e.ev, e.err); got != e.snapshot {
+							viol("earlier-event-changed", "event", fmt.Sprintf("after op %d of task %d the event returned earlier (slot %d, group %d) changed:\n  now  %s\n  was  %s", opi, ti, ei, e.g, got, e.snapshot))
+							return
+						}
+					}
+					return
+				}
 				for _, gi := range own {
 					g := groups[gi]
 					if !g.touched {
@@ -646,7 +707,10 @@ func ExecQPlan(p *QPlan, trace bool) *core.Result {
 						h.Rec(evQOp, int64(oi), -1, int64(gi), 0, "")
 					}
 					got := canonEvent(ev, err)
-					if got != g.refEv {
+					if lazy {
+						// judged after the run, when the reference exists
+						h.Rec(evQGot, int64(gi), int64(oi), 0, 0, got)
+					} else if got != g.refEv {
 						viol("coalesce-not-repeatable", "event", fmt.Sprintf("CoalesceMessages on group %d (call by task %d op %d, messages coalesced before: %v) returned\n  %s\nthe same lines coalesced in isolation give\n  %s", gi, ti, oi, g.touched, got, g.refEv))
 					}
 					g.touched = true
@@ -685,7 +749,9 @@ func ExecQPlan(p *QPlan, trace bool) *core.Result {
 						h.Rec(evQOp, int64(oi), -2, 0, 0, "")
 					}
 					got := canonEvent(e.ev, e.err)
-					if got != groups[e.g].refRes {
+					if lazy {
+						h.Rec(evQGot, int64(e.g), int64(oi), 1, 0, got)
+					} else if got != groups[e.g].refRes {
 						viol("resolve-outcome", qopNames[op.K], fmt.Sprintf("%s on an event of group %d (task %d op %d, clock advanced before: %v) gave\n  %s\nresolving the same event in isolation gives\n  %s", qopNames[op.K], e.g, ti, oi, advanced, got, groups[e.g].refRes))
 					}
 					e.snapshot = got
@@ -716,6 +782,39 @@ func ExecQPlan(p *QPlan, trace bool) *core.Result {
 	res.Faults[0] += sc.ClockJumps
 	res.Probes[qpLockBlocked] += sc.LockBlocks
 	evs := h.Events()
+	if lazy && verdict == core.VerdictOK {
+		for gi := range groups {
+			if !computeRefs(gi) {
+				break
+			}
+		}
+		for _, e := range evs {
+			if e.K != evQGot {
+				continue
+			}
+			g := groups[e.A]
+			want, what := g.refEv, "coalesce-not-repeatable"
+			if e.C == 1 {
+				want, what = g.refRes, "resolve-outcome"
+			}
+			if e.S != want {
+				res.Add("C15", what, "first-run", fmt.Sprintf("group %d, op %d of task %d in the first run of the process returned\n  %s\nthe same lines handled in isolation afterwards give\n  %s", e.A, e.B, e.Task, e.S, want))
+				break
+			}
+		}
+		for gi, g := range groups {
+			if !g.touched {
+				continue
+			}
+			for mi, m := range g.msgs {
+				if mi < len(g.twin) && canonMsg(m) != g.twin[mi] {
+					res.Add("C15", "input-changed", "message", fmt.Sprintf("after the first run of the process message %d of group %d reports\n  %s\na pristine parse of the same line reports\n  %s", mi, gi, canonMsg(m), g.twin[mi]))
+					break
+				}
+			}
+		}
+		res.Probes[qpLazyFirstRun]++
+	}
 	seenCoalesce := map[[2]int]int{}
 	nops := 0
 	for _, e := range evs {
